@@ -390,23 +390,61 @@ func formatOnly(r *an.Run, rule string) {
 			if name != importsProcess {
 				continue
 			}
-			n++
-			al, ok := c.Common().Args[2].(*ssa.Alloc)
+			// the options value: a literal at the call, or what a module function returns (a literal on every return)
+			lits := optionsLiterals(c)
 			val := ""
-			if ok {
+			for i, al := range lits {
+				v := ""
 				for _, u := range *al.Referrers() {
 					if fa, ok := u.(*ssa.FieldAddr); ok && fieldNameOf(fa) == "FormatOnly" {
 						for _, w := range *fa.Referrers() {
 							if st, ok := w.(*ssa.Store); ok {
-								val = an.Describe(st.Val)
+								if v != "" && v != an.Describe(st.Val) {
+									v = "several values"
+								} else {
+									v = an.Describe(st.Val)
+								}
 							}
 						}
 					}
 				}
+				if i > 0 && v != val {
+					v = "differs between returns"
+				}
+				val = v
 			}
 			r.Check(val == "const:true", short(f)+"|FormatOnly", c.Pos(), "imports.Process is given an options literal with FormatOnly: true (it sorts and groups but never adds or removes an import); got %q", val)
 		}
 	}
+	// both pipelines go through such a call (each its own, or one shared helper)
+	for _, root := range []*ssa.Function{r.P.Func(mainP, "mainCmd.Run"), r.P.Func(patchP, "File.Apply")} {
+		if root != nil && len(callsToGroup(root, importsProcess)) > 0 {
+			n++
+		}
+	}
 	r.Count("imports.Process call sites", n)
 	r.Min("imports.Process call sites", 2)
+}
+
+// optionsLiterals resolves the options argument of an imports.Process call to
+// the composite literal(s) it denotes: a literal at the call, or what a module
+// function returns (a fresh literal on every return). Empty when it is
+// anything else.
+func optionsLiterals(c ssa.CallInstruction) []*ssa.Alloc {
+	var lits []*ssa.Alloc
+	switch o := c.Common().Args[2].(type) {
+	case *ssa.Alloc:
+		lits = append(lits, o)
+	case *ssa.Call:
+		if h := an.StaticCallee(o); h != nil && an.InModule(h) && h.Blocks != nil {
+			for _, ret := range an.Returns(h) {
+				if al, ok := ret.Results[0].(*ssa.Alloc); ok && len(ret.Results) == 1 {
+					lits = append(lits, al)
+				} else {
+					return nil
+				}
+			}
+		}
+	}
+	return lits
 }
